@@ -334,7 +334,7 @@ let dispatch lane args =
   | "stream" -> lane_stream args
   | "setup" -> lane_setup args
   | "setupx" | "bigframe" -> "oracle-only"
-  | "mt" | "stall" | "wstall" | "pagedlost" | "pagedabandon" | "useradapter" -> "oracle-only"     (* multi-thread stress: the harness's oracles decide, there is no model outcome to compare *)
+  | "mt" | "stall" | "wstall" | "mtclose" | "pagedlost" | "pagedabandon" | "useradapter" -> "oracle-only"     (* multi-thread stress: the harness's oracles decide, there is no model outcome to compare *)
   | "sync" -> "equal"     (* c14_sequences: for a diagonal table the facade IS the async API; the lane compares the two real APIs *)
   | "tls" -> lane_tls args
   | "paged" -> lane_paged args
